@@ -31,6 +31,8 @@ type GenInput struct {
 	// replace-type alpha.T -> alpha.A (an alias of T) written at this level (root | package | interface): the mock
 	// names the type differently and must still implement the interface
 	ReplaceAlias string `json:"replaceAlias,omitempty"`
+	// root-package stream: the mocked package is the module's root package; how `dir` is spelled
+	RootDir string `json:"rootDir,omitempty"`
 	// names of interfaces that are also declared as function-local types (inside a function
 	// body / inside a function literal of a package-level initialiser)
 	LocalTypes []string `json:"localTypes"`
@@ -53,6 +55,13 @@ func (p c01) Generate(c *Ctx) []any {
 	var out []any
 	for i := 0; i < n; i++ {
 		out = append(out, genGen(c.Rng, i, ""))
+	}
+	// the module's root package, mocked in place: `dir` spelled absolutely and relative to the module root
+	for i, d := range []string{".", "{{.InterfaceDirRelative}}", "{{.InterfaceDir}}", "./", "{{.ConfigDir}}/.", "{{.InterfaceDir}}/"} {
+		g := GenInput{Template: []string{"testify", "matryer"}[i%2], Formatter: []string{"gofmt", "noop", "goimports"}[i%3], Options: map[string]any{}, RootDir: d}
+		g.Data.Stream = "root-package"
+		g.Data.Placement = "inpkg"
+		out = append(out, g)
 	}
 	if p.prop == "C02" {
 		return out
@@ -305,6 +314,9 @@ func (p c01) Run(c *Ctx, raw json.RawMessage) Case {
 		return Case{Oracle: fail("harness", "%v", err)}
 	}
 	defer os.RemoveAll(dir)
+	if in.RootDir != "" {
+		return c01RootPackage(c, &in, dir)
+	}
 	d := &in.Data
 	files := supportFiles()
 	modLine := map[string]string{"tab": "module\texample.com/m", "block": "module (\n\texample.com/m\n)", "quoted": "module \"example.com/m\" // the module",
@@ -546,4 +558,39 @@ func levelledOptions(opts map[string]any, levels map[string]string, ifaces []str
 		}
 	}
 	return
+}
+
+// c01RootPackage: the source package is the module's root directory and the mocks go next to the source
+// (same package); signatures mention types of the package itself.
+func c01RootPackage(c *Ctx, in *GenInput, dir string) Case {
+	files := map[string]string{
+		"go.mod":  "module example.com/inv\n\ngo 1.23\n\nrequire github.com/stretchr/testify v1.10.0\n",
+		"inv.go":  "package inv\n\ntype Item struct{ N int }\n\ntype Filter func(Item) bool\n\ntype Store interface {\n\tGet(id int) (Item, error)\n\tFind(f Filter, more ...Item) []Item\n}\n",
+		"use.go":  "package inv\n\nfunc Count(s Store) int { return len(s.Find(nil)) }\n",
+	}
+	if b, err := os.ReadFile(filepath.Join(c.Src, "go.sum")); err == nil {
+		files["go.sum"] = string(b)
+	}
+	files[".mockery.yml"] = fmt.Sprintf("template: %s\nformatter: %s\nforce-file-write: true\ndir: %q\nfilename: mocks_test.go\npackages:\n  example.com/inv:\n    interfaces:\n      Store:\n", in.Template, in.Formatter, in.RootDir)
+	if err := writeFiles(dir, files); err != nil {
+		return Case{Oracle: fail("harness", "%v", err)}
+	}
+	tags := []string{"tmpl-" + in.Template, "fmt-" + in.Formatter, "stream-root-package"}
+	res := c.runMockery(dir, nil, nil)
+	if res.Panicked {
+		return Case{Impl: map[string]any{"panic": true}, Oracle: fail("panic", "mockery panicked: %s", lastLines(res.Stderr, 6)), Tags: tags, NoModel: true}
+	}
+	or := Oracle{OK: true}
+	compiles := true
+	if res.Exit != 0 {
+		compiles = false
+		or = fail("does-not-compile", "mockery failed on the module's root package with dir %q: %s %s", in.RootDir, formatErrLine(res), lastLines(res.Stderr, 1))
+	} else if _, err := os.Stat(filepath.Join(dir, "mocks_test.go")); err != nil {
+		compiles = false
+		or = fail("does-not-compile", "dir %q: no mocks_test.go next to the source of the root package", in.RootDir)
+	} else if out, err := runGo(dir, "test", "-count=1", "-run", "^$", "./..."); err != nil {
+		compiles = false
+		or = fail("does-not-compile", "the file written for the module's root package (template %s, formatter %s, dir %q) does not compile with its package: %s", in.Template, in.Formatter, in.RootDir, lastLines(strings.ReplaceAll(out, dir, ""), 5))
+	}
+	return Case{Impl: map[string]any{"compiles": compiles}, Oracle: or, Nontrivial: true, Tags: tags, NoModel: true}
 }
